@@ -259,6 +259,14 @@ pub fn run(tier: Tier, replay: Option<&str>) -> i32 {
             }
         }
     }
+    if tier == Tier::Thorough {
+        // both sides of the capacity of the packed k-tuple representation (4 089 user terminals)
+        for m in [4089usize, 4090] {
+            for lalr in [false, true] {
+                jobs.push(("alternation", m, lalr));
+            }
+        }
+    }
     jobs.par_iter().for_each(|(kind, m, lalr)| {
         acc.eval(1);
         if let Some(v) = deep_case(kind, *m, *lalr) {
@@ -311,7 +319,7 @@ fn deep_case(kind: &str, m: usize, lalr: bool) -> Option<Violation> {
             use std::os::unix::process::ExitStatusExt;
             let sig = out.status.signal();
             Some(Violation {
-                class: format!("abnormal_exit_on_deep_{kind}"),
+                class: format!("abnormal_exit_on_deep_{kind}(m={m})"),
                 what: format!("[deep {kind} m={m} lalr={lalr}] worker exits with code {other:?} signal {sig:?} (stack overflow?)"),
                 case,
                 detail: json!({}),
